@@ -3,7 +3,7 @@
 suite still passes 12/12, the demonstration shows the property broken with the patch and holding without it.  Confirmed ones are
 copied to /verif/seeded/<id>/ with a meta.json recording what was run.   usage: confirm_seeded.py [ids...]"""
 import sys, os, subprocess, json, shutil, re, concurrent.futures
-V = "/verif"; CAND = V + "/seeded/candidates"
+V = "/verif"; CAND = os.environ.get("CAND", V + "/seeded/candidates"); DST = os.environ.get("DST", V + "/seeded")
 def sh(cmd, cwd=None, timeout=1800):
     p = subprocess.run(cmd, shell=True, cwd=cwd, capture_output=True, timeout=timeout)
     return p.returncode, (p.stdout + p.stderr).decode("utf-8", "replace")
@@ -31,7 +31,7 @@ with concurrent.futures.ThreadPoolExecutor(4) as ex:
     for pid, ok, log in ex.map(confirm, ids):
         print(pid, "CONFIRMED" if ok else "NOT CONFIRMED", {k: v for k, v in log.items() if "tail" not in k})
         if not ok: print("   ", log.get("demo_patched_tail", "")[-300:].replace("\n", " | ")); continue
-        dst = "%s/seeded/%s" % (V, pid); shutil.rmtree(dst, ignore_errors=True); os.makedirs(dst)
+        dst = "%s/%s" % (DST, pid); shutil.rmtree(dst, ignore_errors=True); os.makedirs(dst)
         shutil.copy("%s/%s/patch.diff" % (CAND, pid), dst); shutil.copytree("%s/%s/demo" % (CAND, pid), dst + "/demo")
         cm = json.load(open("%s/%s/meta.json" % (CAND, pid)))
         meta = {"property": pid, "breaks": cm.get("summary"), "needs_to_manifest": cm.get("needs_to_manifest"), "files_changed": cm.get("files_changed"),
